@@ -77,6 +77,7 @@ type Req struct {
 	NoExec    bool   `json:",omitempty"`
 	Shared    bool   `json:",omitempty"` // initialise with option values shared by all instances of the package
 	PrintRaw  bool   `json:",omitempty"`
+	Misuse    bool   `json:",omitempty"` // after the parse the owner replaces Buffer by "" without Reset and prints the stale tree (recovered)
 	TreeFirst bool   `json:",omitempty"`
 	Print     bool   `json:",omitempty"` // conc mode: capture the process's standard output, report its byte histogram
 	// conc mode
@@ -86,6 +87,7 @@ type Req struct {
 }
 
 type Res struct {
+	Misuse string `json:",omitempty"`
 	Seq       int
 	OK        bool
 	Panic     string
